@@ -481,7 +481,7 @@ def parse_nums(txt):
     return [int(x) for x in re.findall(r"-?\d+", txt.replace("%Z", "").replace("%nat", ""))]
 
 
-def trace_suite(chk, scripts, label="trace"):
+def trace_suite(chk, scripts, label="trace", base=None):
     plans = [Plan(sc) for sc in scripts]
     results = C.run_many([p.ops for p in plans], workers=12)
     defs, names, meta = "", [], []
@@ -505,6 +505,7 @@ def trace_suite(chk, scripts, label="trace"):
         return 0
     nops = 0
     steps_total = 0
+    disagreements = []
     for nm, (si, u, idx, n) in zip(names, meta):
         txt = C.parse_coq_list_out(log, nm)
         v = parse_nums(txt or "")
@@ -517,15 +518,66 @@ def trace_suite(chk, scripts, label="trace"):
         for kind, pos in (("SQL statement sequence", a), ("reply class", b), ("store contents", c)):
             if pos >= 0:
                 chk.cov["disagreements_checked"] += 1
-                st = scripts[si][idx[pos]]
-                chk.broken_obligation(
-                    "correspondence %s no longer checks: %s of operation %r (step %d, store of %s) differs from Model/Micro.v; "
-                    "the crash-replay audit of this run found no property violation for it" % (label, kind, st, idx[pos], u),
-                    {"suite": label, "script": scripts[si], "user": u, "step": idx[pos], "kind": kind})
+                disagreements.append((si, u, idx[pos], kind))
                 break
     chk.cov["trace_ops"] = chk.cov.get("trace_ops", 0) + nops
     chk.cov["trace_micro_steps"] = chk.cov.get("trace_micro_steps", 0) + steps_total
+    # a disagreement with the model is not yet a violation of the property:
+    # look for a failing crash point inside the disagreeing operation
+    # (implementation only, observation-only audit)
+    searched = 0
+    reported = set()
+    for (si, u, step, kind) in disagreements:
+        st = scripts[si][step]
+        key = (st["k"], kind)
+        if key in reported:
+            continue
+        reported.add(key)
+        found = None
+        if base is not None and searched < 3:
+            searched += 1
+            found = search_crash_in_step(chk, scripts[si], step, base)
+        if found:
+            K, text, usr = found
+            chk.violation("kill before storage I/O call %d, inside operation %r whose %s differs from Model/Micro.v: %s" % (K, st, kind, text),
+                          {"suite": "crash", "script": scripts[si][:step + 1], "K": K, "user": usr})
+        else:
+            chk.broken_obligation(
+                "correspondence %s no longer checks: %s of operation %r (step %d, store of %s) differs from Model/Micro.v; "
+                "crash points inside that operation were replayed and the audit found no property violation" % (label, kind, st, step, u),
+                {"suite": label, "script": scripts[si], "user": u, "step": step, "kind": kind})
     return nops
+
+
+def search_crash_in_step(chk, script, step, base):
+    """Replay every crash point inside operation `step` of `script` (all I/O
+    calls between the acknowledgement before it and its own); observation-only
+    audit.  Returns (K, text, user) of the first failure outside store creation."""
+    from concurrent.futures import ThreadPoolExecutor
+    sub = script[:step + 1]
+    n, acks = count_io(sub, base)
+    if n <= 0:
+        return None
+    lo = 0
+    for a in acks:
+        if int(a["id"]) < step:
+            lo = max(lo, a.get("io", 0))
+    Ks = list(range(lo + 1, n + 1))
+    if len(Ks) > 90:
+        stride = len(Ks) / 90.0
+        Ks = sorted(set(Ks[int(j * stride)] for j in range(90)))
+    with ThreadPoolExecutor(max_workers=12) as ex:
+        recs = list(ex.map(lambda K: run_crash_point(sub, K, base), Ks))
+    for rec in recs:
+        chk.cov["crash_points"] = chk.cov.get("crash_points", 0) + 1
+        by_user = stores_by_user(rec["d7"]) if "d7" in rec else {}
+        for kind, u, text in judge_crash(chk, sub, rec, None):
+            stu = by_user.get(u)
+            if kind in ("login", "inbox", "deliver") and (stu is None or (stu.get("schema") or 0) < 26
+                                                           or not any(m[2] == "INBOX" for m in (stu.get("mailboxes") or []))):
+                continue          # store creation: the listed finding classes
+            return rec["K"], text, u
+    return None
 
 
 def count_io(script, base):
@@ -854,9 +906,9 @@ def run(chk):
                 continue
             crash_suite(chk, w["script"], w["Ks"], base, "corpus")
         # ---- 2. statement-trace suite
-        n_tr = 24 if quick else 160
+        n_tr = 40 if quick else 200
         scripts = [gen_script(rng, rng.randint(8, 16)) for _ in range(n_tr)] + FIXED_CRASH_SCRIPTS
-        nops = trace_suite(chk, scripts)
+        nops = trace_suite(chk, scripts, base=base)
         # ---- 3. crash replay
         crash_scripts = list(FIXED_CRASH_SCRIPTS)
         if not quick:
@@ -869,7 +921,7 @@ def run(chk):
                 continue
             total_points += n
             if quick:
-                Ks = sorted(set([1, 2, n, n + 1] + [rng.randint(1, n) for _ in range(14)]))
+                Ks = sorted(set([1, 2, n, n + 1] + [rng.randint(1, n) for _ in range(30)]))
             else:
                 Ks = list(range(1, n + 2))
             crash_suite(chk, sc, Ks, base, "crash%d" % ci)
